@@ -57,7 +57,11 @@ TABLE = {
              "unstarted. Every edge of every state graph is replayed on the real headers by scripted coroutines with counted guard arguments and "
              "locals (frames through operator new or a counting with_allocator storage, promises resolved on the same or a fresh thread, join() "
              "blocking a controlled thread); after each native call counters, _h, _future, futures, observed results, return values, event order "
-             "and live frames are compared with the specification.",
+             "and live frames are compared with the specification. The histories are additionally run over a tracked owning result type for all "
+             "three co_return forms (temporary, variable, std::move(variable)) and every delivery form (join(), start()+wait(), co_await of the "
+             "async or of a future, start(promise), future-returning functions, callback awaiter, detach): the specification's per-form table "
+             "of legitimate copies (all 0) and PayloadIntact (the delivered object is never a copy nor a moved-from object, every payload is "
+             "destroyed exactly once) are compared with the copy count, moved-from flag and ctor/dtor balance observed after every step.",
         note="bounds: <=4 coroutines per program, <=3 external futures, 343 programs / 5.1e4 states quick, 1615 programs / 2.4e5 states thorough with "
              "ASan+UBSan; full edge cover; pool.run(async) replayed as its body on a fresh thread (pool queueing/stopping is C11); TCB: TLC, the "
              "script interpreter and probes in harness/async_replay.cpp, vsched for the blocking join, GCC's coroutine lowering",
@@ -338,7 +342,10 @@ TABLE = {
              "frame size, reusable_storage and reusable_storage_mtsafe over every order of up to four frames of three sizes incl. BIG-small-BIG; "
              "WarmNoAlloc/CompleteNoAlloc checked by TLC) is replayed edge-complete with the storage's operator new/delete count, live heap "
              "blocks and heap-vs-stack placement of each frame as the compared observation, for frame sizes that are and are not multiples "
-             "of 16, for plain with_allocator coroutines and for the library's callback_await_alloc path.",
+             "of 16, for plain with_allocator coroutines and for the library's callback_await_alloc path. c04.alloc_replay replays tracked-payload "
+             "async programs (native and in-coroutine start modes x 3 co_return forms, completing synchronously or after a suspension) with the "
+             "payload's copy count and the number of operator-new calls made inside library calls other than coroutine frames and payload "
+             "constructions as compared observations, both fixed at 0 by the specification.",
         note="value types int and a 64-byte trivially destructible object; per-thread one-time construction of the thread-local ready queue "
              "excluded; more than three waiters released at once is outside the property's clause",
         design_ref="6/C20"),
